@@ -80,7 +80,7 @@ def charmm_case(rng, ff):
 
     ME = [('C', None), ('H', 0), ('H', 0), ('H', 0)]
     # N-terminus
-    if 1 in annotated:
+    if 'N-ter' in annotated.get(1, []):
         attach(1, [(1, 'N')], [('H', None), ('H', None)], 'N-ter', names=['HN2', 'HN3'])
         att[-1]['annot'] = True
     else:
